@@ -231,10 +231,9 @@ class ExprMixin:
                     v = z3.If(v == ABSENT, ca, v)
                 out.append((a, 'ok', v))
             elif default is not None:
-                out.append((a, 'ok', z3.If(v == ABSENT, default, v)))
+                out.append((a, 'ok', z3.If(self.attr_exists(a, o, attr, v), v, default)))
             else:
-                known = self.field_known(a, o, attr)
-                a1, a2 = self.split(a, z3.Or(known, v != ABSENT))
+                a1, a2 = self.split(a, self.attr_exists(a, o, attr, v))
                 if a1 is not None:
                     out.append((a1, 'ok', v))
                 if a2 is not None:
@@ -251,6 +250,26 @@ class ExprMixin:
             if attr in ci.class_attrs and isinstance(ci.class_attrs[attr], ast.Constant):
                 return self.const(ci.class_attrs[attr].value)
         return None
+
+    def attr_exists(self, st, o, attr, v):
+        """instances of the package's own classes (and the synthetic user-check classes) carry exactly the
+        attributes their class assigns; other objects carry an attribute when its heap cell is set"""
+        closed = [c for c in self.w.classes] + ['$Custom3', '$Custom4', '$CustomCheck3', '$CustomCheck4']
+        has, isclosed = [], []
+        for c in closed:
+            if c not in self.w.ids:
+                continue
+            eqc = clsof(V.ref(o)) == self.cid(c)
+            isclosed.append(eqc)
+            fields = self.w.class_fields(c)
+            if c.startswith('$CustomCheck'):
+                fields = {'kind', 'match'}
+            if attr in fields or self.w.class_attr(c, attr) is not None:
+                has.append(eqc)
+        declared = z3.Or(has) if has else z3.BoolVal(False)
+        ext = self.stubs.field_classes(attr)
+        ext_has = z3.Or([clsof(V.ref(o)) == self.cid(c) for c in ext if c in self.w.ids]) if ext else z3.BoolVal(False)
+        return z3.If(z3.Or(isclosed), declared, z3.Or(ext_has, v != ABSENT))
 
     def field_known(self, st, o, attr):
         """classes all of whose instances carry the field (assigned in a method of the class or a base)"""
@@ -397,9 +416,12 @@ class ExprMixin:
         if isinstance(cont, SConst):
             e = z3.Or([self.eq_term(st, a, self.const(x) if not isinstance(x, Static) else x) for x in cont.value] or [False])
             return ok(st, mk_bool(z3.Not(e) if neg else e))
+        fin = lambda e: mk_bool(z3.Not(e) if neg else e)
+        if isinstance(cont, SIter) and getattr(cont, 'view', '') == 'keys_view' and not isinstance(a, Static):
+            # x in d.keys()
+            return ok(st, fin(z3.And(V.is_str(a), z3.Select(cont.map, V.s(a)) != ABSENT)))
         if isinstance(cont, Static) or isinstance(a, Static):
             raise Unsupported('in on static')
-        fin = lambda e: mk_bool(z3.Not(e) if neg else e)
         out = []
         # user-defined containers (Rules is a dict subclass: plain dict membership)
         x, rest = self.split(st, self.is_dictlike(st, cont))
